@@ -18,6 +18,9 @@ def BaseCore_SetResultImpl : String :=
 def BaseCore_Empty : String :=
   "Empty() { var callback = _callback.load(acq); return (callback == kEmpty) }"
 
+def BaseCore_Ready : String :=
+  "Ready() { var callback = _callback.load(acq); return (callback == kResult) }"
+
 def Drop_Impl : String :=
   "Impl(caller) { caller.DecRef(); return Noop() }"
 
@@ -31,7 +34,7 @@ def FutureBase_dtor : String :=
   "~FutureBase<V, E>() { if (Valid()) { move((*this)).Detach() } }"
 
 def FutureBase_Ready : String :=
-  "Ready() { return (!_core.Empty()) }"
+  "Ready() { return _core.Ready() }"
 
 def FutureBase_GetConst : String :=
   "Get() { if (Ready()) { return (&_core.Get()) }; return nullptr }"
@@ -853,7 +856,7 @@ def SharedCore_SetResult : String :=
   "SetResult() { return BaseCore::SetResultImpl<SymmetricTransfer,true>() }"
 
 def SharedFutureBase_Ready : String :=
-  "Ready() { return (!_core.Empty()) }"
+  "Ready() { return _core.Ready() }"
 
 def SharedFutureBase_GetMove : String :=
   "Get() { Wait((*this)); if (operator==(_core.GetRef(), 1)) { return move(_core.Get()) } else { return _core.Get() } }"
@@ -928,7 +931,7 @@ def When_CombinatorCallback_Impl : String :=
   "Impl(caller) { var core = DownCast(caller); ifc ((Index == kDynamicTag)) { var index = (this - _self.callbacks.data()); Consume(_self.st, core, index) } else { Consume(_self.st, core) }; _self.DecRef() }"
 
 def AwaitAwaiterBase_await_ready : String :=
-  "await_ready() { return (!_core.Empty()) }"
+  "await_ready() { return _core.Ready() }"
 
 def When_Consume : String :=
   "Consume(st, core) { ifc (operator==(Strategy::kConsumePolicy, None)) { ifc (operator==(Strategy::kCorePolicy, Managed)) { core.DecRef() } } else ifc (operator==(Strategy::kConsumePolicy, Unordered)) { ConsumeImpl(st, core) } else ifc (operator==(Strategy::kConsumePolicy, Static)) { ConsumeImpl(st, core) } else { ConsumeImpl(st, core, Index) } } || Consume(st, core, index) { decl StaticAssertDecl; ifc (operator==(Strategy::kConsumePolicy, None)) { ifc (operator==(Strategy::kCorePolicy, Managed)) { core.DecRef() } } else ifc (operator==(Strategy::kConsumePolicy, Unordered)) { ConsumeImpl(st, core) } else { ConsumeImpl(st, core, index) } }"
